@@ -62,6 +62,15 @@ vh_malloc(size_t n)
     return p;
 }
 
+extern "C" void*
+vh_calloc(size_t n, size_t m)
+{
+    void* p = vh_malloc(n * m);
+    if (p)
+        memset(p, 0, n * m ? n * m : 1);
+    return p;
+}
+
 extern "C" void
 vh_free(void* p)
 {
